@@ -10,7 +10,8 @@ R-C09-3  (field-flow + syntax) constructor fields: unassigned-after-branch = una
          loops / single-branch ifs / lambdas do not assign; `self.f` is refused while `f` is unassigned; a constructor that ends with
          unassigned non-nullable fields is an error.
 """
-from .common import walk, src, strip, AnchorError, tail_expr
+import re
+from .common import idents_in, walk, src, strip, AnchorError, tail_expr
 from . import envflow
 from .c08 import _arm
 
@@ -28,40 +29,7 @@ def run(chk, facts):
     try:
         mid = syn.one_fn("match_id", mod="check::constrain::generate::expression")
         loc = facts.loc_of(mid)
-        arm = _arm(mid, "Node::Id")
-        chain = strip(tail_expr(arm["body"]) if arm["body"].get("k") == "block" else arm["body"])
-        conds = []
-        cur = chain
-        final = None
-        while cur is not None and cur.get("k") == "if":
-            conds.append((src(strip(cur["c"])).replace(" ", ""), cur["then"]))
-            nxt = cur.get("else")
-            nxt = strip(nxt) if nxt else None
-            if nxt is not None and nxt.get("k") != "if":
-                final = nxt
-                break
-            cur = nxt
-        if final is None:
-            raise AnchorError("match_id: the Id arm is no longer an if/else-if chain with a final else")
-        fs = src(final)
-        ok_final = fs.startswith("Err(") and "Undefined variable" in fs
-        chk.ob("R-C09-2", "final-else=Err(Undefined)", ok_final, "a name that no rule accepts is reported as `Undefined variable`" if ok_final else
-               f"the final else of match_id's identifier chain is `{fs[:80]}` instead of Err(Undefined variable)", loc)
-        allowed = 0
-        for c, then in conds:
-            kind = None
-            if "lit.as_str()==" in c and all(x in ('"None"', '"True"', '"False"') for x in _strs(c)):
-                kind = "literal name"
-            elif c == "env.is_def_mode":
-                kind = "definition mode"
-            elif c == "env.is_destruct_mode":
-                kind = "destructuring mode"
-            elif c.startswith("env.get_var(lit,") and c.endswith(".is_some()"):
-                kind = "found in the environment"
-            chk.ob("R-C09-2", f"branch:{c[:50]}", kind is not None, f"match_id accepts an identifier when `{c[:60]}` ({kind})" if kind else
-                   f"match_id accepts an identifier under the unreviewed condition `{c[:80]}`", loc)
-            allowed += 1
-        chk.floor("R-C09-2", allowed, 5, "branches of match_id's identifier chain")
+        match_id_paths(chk, facts, "R-C09-2")
         # dispatch: generate[Id] -> gen_expr -> match_id
         ge = syn.one_fn("gen_expr", mod="check::constrain::generate::expression")
         a = _arm(ge, "Node::Id")
@@ -94,20 +62,25 @@ def field_init(chk, facts, rule):
     try:
         gc_ = syn.one_fn("gen_call", mod="check::constrain::generate::call")
         arm_ = _arm(gc_, "Node::Reassign")
-        folds = [n for n in walk(arm_["body"]) if n.get("k") == "mcall" and n["m"] == "fold" and "assigned_to" in src(n)]
-        ok = False
-        if len(folds) == 1:
-            chain = []
-            cur = strip(folds[0]["recv"])
-            while cur.get("k") == "mcall":
-                chain.append(cur)
-                cur = strip(cur["recv"])
-            names = [c["m"] for c in reversed(chain)]
-            sel = [c for c in chain if c["m"] == "flat_map"]
-            bodies = [src(strip(strip(c["args"][0])["body"])).replace(" ", "") for c in sel if strip(c["args"][0]).get("k") == "closure"]
-            ok = names == ["all_calls", "iter", "flat_map", "flat_map"] and src(cur) == "identifier" and \
-                "call.without_obj(arg::SELF,left.pos)" in bodies and \
-                any(b.startswith("matchidenti_call{IdentiCall::Iden(var)=>Some(var)") and b.endswith("_=>None}") for b in bodies)
+        # Which names reach `assigned_to(..)`? Everything derived from `identifier` in this arm is followed (iterator closures, loop
+        # variables, if-let / match bindings); on those values only structure-preserving steps are allowed, the object `self` is taken
+        # off with `without_obj(arg::SELF, ..)`, and a name is extracted *only* by the pattern `IdentiCall::Iden(x)` - a bare
+        # identifier, i.e. the whole rest of the target. `IdentiCall::object()` (left-most leaf of a chain) or any other accessor
+        # would turn `self.a.b := e` into "a is assigned". A chain of adapters and a for loop are the same to this rule.
+        from .traverse import _derived
+        body_ = arm_["body"]
+        tainted = _derived(body_, {"identifier"})
+        ALLOWED = {"all_calls", "iter", "into_iter", "flat_map", "filter_map", "map", "fold", "for_each", "without_obj", "clone", "cloned", "as_ref",
+                   "ok", "is_ok", "flatten", "collect", "assigned_to", "fields", "deref", "filter"}
+        used = set()
+        for n in walk(body_):
+            if n.get("k") == "mcall" and idents_in(n["recv"]) & tainted:
+                used.add(n["m"])
+        assigned = [n for n in walk(body_) if n.get("k") == "mcall" and n["m"] == "assigned_to"]
+        pats = [n for n in walk(body_) if n.get("k") == "ptstruct" and n["p"].endswith("IdentiCall::Iden")]
+        wo = [n for n in walk(body_) if n.get("k") == "mcall" and n["m"] == "without_obj" and n["args"] and src(strip(n["args"][0])).endswith("SELF")]
+        extra = sorted(m for m in used - ALLOWED if m not in ("pos",))
+        ok = bool(assigned) and bool(pats) and bool(wo) and not extra and "all_calls" in used
         chk.ob(rule, "assignment-marks-direct-self-field-only", ok,
                "an assignment marks a field as assigned only when the target is `self.<field>` itself" if ok else
                "the set of fields an assignment marks as assigned is no longer `self.<field>` only: `self.a.b := e` (which *reads* a) can mark `a` as assigned", facts.loc_of(gc_))
@@ -146,3 +119,57 @@ def field_init(chk, facts, rule):
 def _strs(c):
     import re
     return re.findall(r'"[^"]*"', c)
+
+
+def match_id_paths(chk, facts, rule):
+    """identifier resolution, decided on the enumerated paths of `match_id` (an if/else-if chain, a match on the lookup, guard
+    clauses .. are the same thing): every path through the `Node::Id` arm is classified by its conditions -
+        literal name (None / True / False), definition mode, destructuring mode, found in the environment  -> accepted
+        none of these (the lookup found nothing)                                                            -> must be an Err
+    and no other accepting condition exists."""
+    from .common import fn_paths
+    syn = facts.syn
+    mid = syn.one_fn("match_id", mod="check::constrain::generate::expression")
+    loc = facts.loc_of(mid)
+    paths = [p for p in fn_paths(mid["body"]) if any("~Node::Id" in c and pol for c, pol in p.conds)]
+    if not paths:
+        raise AnchorError("match_id: no path through a Node::Id arm")
+    kinds = set()
+    undefined_err = 0
+    for p in paths:
+        pos = [c for c, pol in p.conds if pol and "~Node::Id" not in c]
+        neg = [c for c, pol in p.conds if not pol]
+        r = src(strip(p.result)) if p.result is not None else ""
+        is_err = r.startswith("Err(") or (p.how == "return" and r.startswith("Err("))
+        # what does the path know?
+        found = any(re.search(r"env\.get_var\(lit,.*\)(\.is_some\(\)|~Some\()", c) for c in pos) or any(re.search(r"env\.get_var\(lit,.*\)(\.is_none\(\)|~None)", c) for c in neg)
+        absent = any(re.search(r"env\.get_var\(lit,.*\)(\.is_none\(\)|~None)", c) for c in pos) or any(re.search(r"env\.get_var\(lit,.*\)\.is_some\(\)", c) for c in neg) \
+            or any(re.search(r"letSome\(.*\)=env\.get_var\(lit,", c) for c in neg)
+        kind = None
+        for c in pos:
+            if "lit.as_str()==" in c and all(x in ('"None"', '"True"', '"False"') for x in _strs(c)):
+                kind = "literal name"
+            elif c == "env.is_def_mode":
+                kind = "definition mode"
+            elif c == "env.is_destruct_mode":
+                kind = "destructuring mode"
+        if kind is None and found:
+            kind = "found in the environment"
+        if kind is not None:
+            kinds.add(kind)
+            chk.ob(rule, f"match_id:accept:{kind}", True, f"match_id accepts an identifier: {kind}")
+            continue
+        if absent and is_err and "Undefined variable" in r:
+            undefined_err += 1
+            continue
+        if is_err:
+            chk.ob(rule, "match_id:other-error", True, f"match_id rejects under {pos[-1][:50] if pos else '-'}")
+            continue
+        chk.ob(rule, f"match_id:unreviewed:{(pos[-1] if pos else 'default')[:50]}", False,
+               f"match_id accepts an identifier on a path that is none of literal name / definition / destructuring / found in the environment "
+               f"(conditions {pos[-2:]}, not {neg[-2:]}): a use of an undefined name is accepted (NameError at run time)", loc)
+    ok = undefined_err >= 1
+    chk.ob(rule, "match_id:undefined-is-error", ok, "an identifier that is none of these is `Undefined variable`" if ok else
+           "match_id has no path that reports `Undefined variable` when the lookup finds nothing", loc)
+    ok = kinds >= {"literal name", "definition mode", "destructuring mode", "found in the environment"}
+    chk.ob(rule, "match_id:cases", ok, "an identifier is None/True/False, a definition, a deletion or must be in the environment" if ok else f"match_id's accepting cases are {sorted(kinds)}", loc)
